@@ -255,8 +255,13 @@ class ResourcePeriodicallyUnavailable(ResourceConstraint):
                     duration = end_task_i - start_task_i
                     conds = [
                         z3.Xor(
-                            (start_task_i - self.offset) % self.period
-                            >= interval_upper_bound,
+                            # after the interval, and before its next repetition
+                            z3.And(
+                                (start_task_i - self.offset) % self.period
+                                >= interval_upper_bound,
+                                (start_task_i - self.offset) % self.period + duration
+                                <= interval_lower_bound + self.period,
+                            ),
                             (start_task_i - self.offset) % self.period + duration
                             <= interval_lower_bound,
                         )
@@ -517,7 +522,12 @@ class ResourcePeriodicallyInterrupted(ResourceConstraint):
                         # ...otherwise make sure the task does not overlap with any of time intervals
                         conds.append(
                             z3.Xor(
-                                folded_start_task_i >= interval_upper_bound,
+                                # after the interval, and before its next repetition
+                                z3.And(
+                                    folded_start_task_i >= interval_upper_bound,
+                                    folded_start_task_i + duration
+                                    <= interval_lower_bound + self.period,
+                                ),
                                 folded_start_task_i + duration <= interval_lower_bound,
                             )
                         )
